@@ -31,6 +31,9 @@ MIN_OBLIGATIONS = 30
 
 
 def run(ctx: Ctx):
+    from .. import memo as _memo
+
+    ctx.section(_memo.check_memo_keys, ctx, ('qlassfun.QlassF.encode_input', 'qlassfun.QlassF.decode_output', 'qlassfun.QlassF.input_qubits', 'qlassfun.QlassF.output_qubits', 'qlassfun.QlassF.input_size', 'qlassfun.QlassF.output_size', 'types.', 'ast2logic.t_arguments', 'ast2logic.typing', 'qcircuit.qcircuitwrapper'))
     repo = ctx.repo
     an = fx.effects(ctx)
     ctx.section(check_encode, ctx, repo.func("qlassfun.QlassF.encode_input"))
